@@ -19,7 +19,8 @@ pub fn product(ctx: &Ctx) {
     let len = ctx.pick("len", 1024);
     let pad4 = ctx.pick("pad4", 255);
     let p = pad_and_blob(pad4, pattern(len as u64, len));
-    if let Some((w, _)) = roundtrip(ctx, &p, P) {
+    // the payload source delivers its data in full, in halves or alternating (rotated over the product)
+    if let Some((w, _)) = roundtrip_src(ctx, &p, P, SRC_MODES[(len + pad4) % 3]) {
         ctx.count(format!("startres:{}", w.run.blobs[1].0 % 1024));
         ctx.count(format!("lenmod4:{}", len % 4));
         if len > 0 {
@@ -28,6 +29,7 @@ pub fn product(ctx: &Ctx) {
     }
 }
 
+const SRC_MODES: [crate::dev::Chunk; 3] = [crate::dev::Chunk::Full, crate::dev::Chunk::AlwaysHalf, crate::dev::Chunk::Alternate];
 const LONG: [usize; 22] = [65535, 65536, 200000, 4095, 4096, 4097, 8191, 8192, 8193, 16383, 16384, 16385, 32767, 32768, 32769, 65537, 131071, 131072, 131073, 1048575, 1048576, 1048577];
 
 /// multi-page lengths 1020k+d (k=1..3, d=-20..=20) and three long ones x 16 residues; payload
@@ -43,7 +45,7 @@ pub fn long(ctx: &Ctx) {
         _ => vec![0xFFu8; len],
     };
     let p = pad_and_blob(pad4, data);
-    if roundtrip(ctx, &p, P).is_some() {
+    if roundtrip_src(ctx, &p, P, SRC_MODES[ctx.pick("source-reads", 3)]).is_some() {
         ctx.nontrivial();
     }
 }
@@ -73,7 +75,7 @@ pub fn neighbours(ctx: &Ctx) {
         ops.push(op6(ctx.pick("op", N_OPS6), pos));
     }
     let p = Program { guid: "g".into(), ops, ..Default::default() };
-    if let Some((_, rb)) = roundtrip(ctx, &p, P) {
+    if let Some((_, rb)) = roundtrip_src(ctx, &p, P, SRC_MODES[depth % 3]) {
         if !rb.scene.images.is_empty() {
             ctx.nontrivial();
         }
